@@ -40,7 +40,7 @@ SPEC = {
     "components_real": ["fakesnow/*", "sqlglot", "duckdb engine (in-memory)", "snowflake.connector error classes"],
     "components_stubbed": ["caller threads (one thread impersonates the sessions in the scheduled statement order)"],
     "assumptions": ["statement-level atomicity", "writes of concurrent open transactions are out of scope here (C13)"],
-    "mandatory_probes": {"any": ["predicted_error", "fail_in_txn", "use_after_close", "predicted_2003", "predicted_90105"]},
+    "mandatory_probes": {"any": ["predicted_error", "fail_in_txn", "use_after_close", "predicted_2003", "predicted_90105", "op_const"]},
 }
 
 HAZARDS = ["drop_database", "unknown_db_ddl_in_txn"]
@@ -65,6 +65,7 @@ def gen(rng: Any, prop: str, tier: str) -> dict[str, Any]:
     closed: set[str] = set()
     txn_owner: list[str | None] = [None]
     p_fail = rng.choice([0.15, 0.3, 0.5])
+    use_nop = rng.random() < 0.4
     for _ in range(rng.randint(8, 36)):
         sid = rng.choice(sids)
         if sid in closed:
@@ -75,11 +76,15 @@ def gen(rng: Any, prop: str, tier: str) -> dict[str, Any]:
             g.m.close(sid)
             closed.add(sid)
             continue
+        if use_nop and rng.random() < 0.12:
+            # a statement the instance is configured to no-op: succeeds with the status row, and resets cursor.sqlstate like any execute
+            g.ops.append({"s": sid, "k": "exec", "cur": rng.choice([0, 0, 1]), "sql": rng.choice(["CALL my_proc()", "call other_proc(1, 'x')"]), "st": {"t": "const", "rows": [["Statement executed successfully."]], "label": "nop"}})
+            continue
         if rng.random() < p_fail:
             _failing(g, rng, sid, hazards, txn_owner)
         else:
             _normal(g, rng, sid, txn_owner)
-    return {"profile": NAME, "config": {"k": k, "hazards": hazards, "fs_opts": {}}, "strategy": "serial", "ops": g.ops}
+    return {"profile": NAME, "config": {"k": k, "hazards": hazards, "fs_opts": {"nop_regexes": ["^CALL "]} if use_nop else {}}, "strategy": "serial", "ops": g.ops}
 
 
 def _after_close(g: Gen, rng: Any, sid: str) -> None:
